@@ -51,7 +51,7 @@ def cases(tier, seed):
                 yield {"kind": "kill", "writer": w, "gulp": 1, "k": k}
     for nbits in (1, 2, 4, 8, 16, 32):
         yield {"kind": "truncate", "nbits": nbits, "seed": int(seed)}
-    sw = ("invert_freq", "extract_chans", "subband", "ts_to_tim") if tier == "quick" else c20_scen.WRITERS
+    sw = ("invert_freq", "extract_samps", "extract_chans", "subband", "ts_to_tim") if tier == "quick" else c20_scen.WRITERS
     for w in sw:
         yield {"kind": "strace", "writer": w, "gulp": 5}
 
@@ -68,8 +68,13 @@ def setup_worker(ctx):
         orig = getattr(FileWriter, name)
 
         def f(self, arg, _orig=orig, _name=name):
-            r = _orig(self, arg)
             rec = _hook["active"]
+            if rec is not None:
+                # append-only at the hook: the write must start at the current end of the file
+                pos, size = self.file_obj.tell(), os.fstat(self.file_obj.fileno()).st_size
+                if pos != size:
+                    rec.setdefault("__not_at_eof__", []).append((self.files[0], _name, pos, size))
+            r = _orig(self, arg)
             if rec is not None:
                 path = self.files[0]
                 with open(path, "rb") as fh:   # fresh descriptor: what another process (or a post-crash reader) sees
@@ -105,6 +110,9 @@ def _snapshot(case, ctx):
         ctx.violation(f"writer-raised:{case['writer']}:{type(exc).__name__}@{exc_site(exc)}", fmt_exc(exc), case)
         return
     _hook["active"] = None
+    for path, name, pos, size in rec.pop("__not_at_eof__", []):
+        ctx.violation(f"write-not-at-eof:{case['writer']}", f"{os.path.basename(path)}: {name} issued at offset {pos} while the file is {size} bytes long (rewrite of earlier bytes, e.g. a patched header)", case)
+        return
     # the call has returned: the files must be complete *now* (no close/flush by the harness)
     at_return = {p: open(p, "rb").read() for p in outs}
     import gc
